@@ -77,6 +77,9 @@ func ToGeoJSON(g geom.Geom) (*Geometry, error) {
 			Type:        "MultiPolygon",
 			Coordinates: pointsssCoordinates(pathsList),
 		}, nil
+	case nil:
+		// reflect.TypeOf(nil) is nil and has no name.
+		return nil, &UnsupportedGeometryError{"nil"}
 	default:
 		return nil, &UnsupportedGeometryError{reflect.TypeOf(g).String()}
 	}
